@@ -6,7 +6,7 @@ import random
 from . import lib
 from .simlib import SimCheck
 
-FIXED = dict(FreeJunction=True)
+FIXED = dict(FreeJunction=True, DcAncestor=True)
 
 
 def limbs(v, n=4):
@@ -133,7 +133,7 @@ def run(pid, tier):
     q = tier == "quick"
     sc = DcCheck(pid, tier, "dc")
     rnd = random.Random(lib.seed())
-    inv = ["Accepted", "ParentRight", "Monotone", "ChainExact"]
+    inv = ["Accepted", "ParentRight", "Monotone", "ChainExact", "ChainExactMixed"]
     for name, consts in (("all-dc", dict(MaxN=4 if q else 5, Links={10, 30}, Fwds={0, 4}, AllDc=True)),
                          ("mixed-dc", dict(MaxN=3 if q else 4, Links={10, 30}, Fwds={0, 4}, AllDc=False))):
         consts = dict(consts, **FIXED)
